@@ -366,8 +366,14 @@ fn gather_features(
             gather_features_recursively(feature, &mut features, builtin_features, opt, git_config);
         }
     } else {
+        // Without git config a feature cannot have a custom section, but a builtin feature
+        // still enables the features it is defined to enable (as the flags below do).
         for feature in input_features {
-            features.push_front(feature.to_string());
+            if builtin_features.contains_key(feature) {
+                gather_builtin_features_recursively(feature, &mut features, builtin_features, opt);
+            } else {
+                features.push_front(feature.to_string());
+            }
         }
     }
 
